@@ -166,14 +166,21 @@ def connectGetQuery (w : World) (o : Op) (v : Bytes) : Option Bytes :=
   let q := encodeQuery kvs
   if o.conf.path.length + q.length + 1 > o.conf.maxGetURL then none else some q
 
+/-- Forwarding untouched: the handler works directly on the client's request and writer.  This is
+    the *specification* of pass-through / unknown-endpoint handling (C13): what the handler sees is the
+    client's request (method, URL, version, every header, declared length, body bytes) and what the
+    client sees is exactly what the handler does. -/
+def forwardObs (sc : Scenario) (disp : Dispatch) : Obs :=
+  let r := sc.req
+  let (_, sink, rd, re, ws) := runRaw sc.script sc.src {}
+  { dispatch := disp, passThrough := true, sink := sink,
+    backend := { method := r.method, path := r.path, rawQuery := r.rawQuery, protoMajor := r.protoMajor,
+                 contentLength := r.contentLength, headers := r.headers, read := rd, readEnd := re, writes := ws } }
+
 /-- `Transcoder.ServeHTTP`. -/
 def serve (w : World) (sc : Scenario) : Obs :=
   let r := sc.req
-  let raw (disp : Dispatch) (passThrough : Bool) : Obs :=
-    let (_, sink, rd, re, ws) := runRaw sc.script sc.src {}
-    { dispatch := disp, passThrough := passThrough, sink := sink,
-      backend := { method := r.method, path := r.path, rawQuery := r.rawQuery, protoMajor := r.protoMajor,
-                   contentLength := r.contentLength, headers := r.headers, read := rd, readEnd := re, writes := ws } }
+  let raw (disp : Dispatch) (_passThrough : Bool) : Obs := forwardObs sc disp
   match validate w sc.conf r with
   | .error .notFound =>
     if sc.conf.unknownHandler then raw .unknown true
